@@ -246,12 +246,15 @@ Definition print_kind (k : skind) : list rune :=
 Definition print_prefix (p : prefix) : list rune :=
   match p with PShould => [] | PMust => [43] | PMustNot => [45] end.
 
+(* the lexer's tilde state runs up to the next space, so a boost after w~n needs a space first *)
+Definition boost_gap (k : skind) : list rune := match k with KFuzzy _ _ => [32] | _ => [] end.
+
 (* every clause is followed by one space *)
 Definition print_clause (c : sclause) : list rune :=
   print_prefix (s_prefix c) ++
   (match s_field c with [] => [] | f => f ++ [58] end) ++
   print_kind (s_kind c) ++
-  (match s_boost c with Some b => 94 :: print_dec b | None => [] end) ++ [32].
+  (match s_boost c with Some b => boost_gap (s_kind c) ++ 94 :: print_dec b | None => [] end) ++ [32].
 
 Definition print (cs : list sclause) : list rune := concat (map print_clause cs).
 
@@ -316,3 +319,41 @@ Fixpoint denote_from (q : bq) (cs : list sclause) : option bq :=
 
 (* required / optional / excluded clauses in order of appearance *)
 Definition denote (cs : list sclause) : option bq := denote_from bq0 cs.
+
+(* ---------- side condition of qs_parse_print: the strings avoid the reserved characters ---------- *)
+(* a bare word: starts with a character that opens a string token, contains no terminator
+   (space : ^ ~) and no backslash *)
+Definition start_ok (r : rune) : bool :=
+  negb ((r =? 34) || is_op_char r || (r =? 94) || (r =? 126) || (r =? 92) || is_digit r || is_space r).
+Definition body_ok (r : rune) : bool := negb (ends_word r || (r =? 92)).
+Definition word_ok (w : list rune) : bool :=
+  match w with
+  | [] => false
+  | r :: _ => start_ok r && forallb body_ok w
+  end.
+Definition regexp_shaped (w : list rune) : bool := has_prefix_slash w && has_suffix_slash w.
+Definition has_wild (w : list rune) : bool := existsb (fun r => (r =? 42) || (r =? 63)) w.
+Definition phrase_ok (p : list rune) : bool := forallb (fun r => negb ((r =? 34) || (r =? 92))) p.
+Definition dec_ok (n : dec) : bool :=
+  match d_int n with [] => false | _ => true end && all_digits (d_int n) &&
+  match d_frac n with Some f => all_digits f | None => true end.
+Definition has_field (c : sclause) : bool := match s_field c with [] => false | _ => true end.
+
+Definition kind_ok (c : sclause) : bool :=
+  match s_kind c with
+  | KMatch w => word_ok w && negb (regexp_shaped w) && negb (has_wild w)
+  | KFuzzy w n => word_ok w && match n with [] => true | [d] => is_digit d | _ => false end
+  | KPhrase p => phrase_ok p
+  | KRegexp r => forallb body_ok r
+  | KWildcard w => word_ok w && negb (regexp_shaped w) && has_wild w
+  | KNumber neg n => dec_ok n && (negb neg || has_field c)
+  | KCmp _ _ n => dec_ok n && has_field c
+  | KDate _ d => phrase_ok d && has_field c
+  end.
+
+Definition clause_ok (c : sclause) : bool :=
+  (match s_field c with [] => true | f => word_ok f end) &&
+  kind_ok c &&
+  match s_boost c with Some b => dec_ok b | None => true end.
+
+Definition clauses_ok (cs : list sclause) : bool := forallb clause_ok cs.
